@@ -9,6 +9,14 @@ C04 — Ordered glob mapping: the first matching rule wins.
 *all* configurations, metric names (byte strings) and metric types; there is no size bound.
 "Ordered mode" is `cfg.orderingDisabled = false`; then `BacktrackingNeeded` is `true`
 by the definition of `TestIfNeedBacktracking` (`needBT_ordered`).
+
+The capture statements (`trie_dfs_sound`, `trie_dfs_complete`, `glob_captures`, `globLookup_captures`)
+hold for *every* name, including names with a component that is literally `*`. Before repair 0275669 such
+a component was looked up among the literal transitions, found the wildcard transition there and was not
+recorded as a capture, so that all later captures were shifted (the finding `literal_star_component`;
+the statements then carried the hypothesis "no name component is literally `*`"). Now a `*` component
+takes the wildcard branch like any other component that has no literal transition and is captured:
+`star_component_captured` records the repaired behaviour on the former counterexample.
 -/
 namespace SE.Props.C04
 open SE SE.ListLemmas
@@ -18,21 +26,21 @@ variable {V : Type}
 theorem needBT_ordered (pats : List Pat) : needBT pats false = true := SE.needBT_ordered pats
 
 /-- Soundness of the trie search (any mode, with or without backtracking): every final state the
-    search reports is owned by a rule of the type root whose pattern matches the name component-wise;
-    if no name component is literally `*`, its captures are the name components under the `*`s. -/
+    search reports is owned by a rule of the type root whose pattern matches the name component-wise,
+    and its captures are the name components under the `*`s of that pattern. -/
 theorem trie_dfs_sound (rs : TRules) (bt : Bool) (name : Pat) (f : Found)
     (h : f ∈ dfs rs bt [] [] name) :
     ∃ pat, (f.rule, pat) ∈ rs ∧ globMatches pat name = true ∧ result rs pat = some f.rule ∧
-      (NoStarField name → f.caps = capturesOf pat name) := by
+      f.caps = capturesOf pat name := by
   obtain ⟨ext, h1, h2, h3⟩ := dfs_sound rs bt name [] [] f h
   exact ⟨ext, result_some_mem h2, h1, h2, by simpa using h3⟩
 
 /-- Completeness of the trie search with backtracking: every rule of the type root that matches the
-    name and is the first with its pattern (so it owns its final node) is reported; the `[min,max]`
-    length pruning never cuts it off. -/
+    name and is the first with its pattern (so it owns its final node) is reported, with the captures of
+    its pattern; the `[min,max]` length pruning never cuts it off. -/
 theorem trie_dfs_complete (rs : TRules) (name : Pat) (hne : name ≠ []) (i : Nat) (pat : Pat)
     (hm : globMatches pat name = true) (hr : result rs pat = some i) :
-    ∃ c, (⟨i, c⟩ : Found) ∈ dfs rs true [] [] name ∧ (NoStarField name → c = capturesOf pat name) := by
+    ∃ c, (⟨i, c⟩ : Found) ∈ dfs rs true [] [] name ∧ c = capturesOf pat name := by
   obtain ⟨c, h1, h2⟩ := dfs_complete rs name [] [] pat i hne hm hr
   exact ⟨c, h1, by simpa using h2⟩
 
@@ -64,11 +72,11 @@ theorem glob_ordered_eq_firstGlob (cfg : Config V) (hord : cfg.orderingDisabled 
     have hy := mem_globKK (List.mem_of_find?_eq_some hk)
     rw [hb]; simp only [hbr, hy.1, Option.map_some]
 
-/-- **Captures / full result of the ordered glob lookup**: if no name component is literally `*`,
-    the mapping returned is the first matching glob rule `r` (index `i`), and its name and label
-    values are `r`'s templates formatted with `capturesOf r.pat name`. -/
+/-- **Captures / full result of the ordered glob lookup**, for every name (a component that is
+    literally `*` included): the mapping returned is the first matching glob rule `r` (index `i`), and
+    its name and label values are `r`'s templates formatted with `capturesOf r.pat name`. -/
 theorem glob_captures (cfg : Config V) (hord : cfg.orderingDisabled = false)
-    (name : Bytes) (ty : Nat) (hns : NoStarField (splitOn 46 name)) (m : Mapped)
+    (name : Bytes) (ty : Nat) (m : Mapped)
     (hm : lookupGlob cfg name ty = some m) :
     ∃ i r, firstGlob cfg name ty = some i ∧ cfg.rules[i]? = some r ∧
       ruleMatchesGlob r (splitOn 46 name) ty = true ∧
@@ -88,14 +96,14 @@ theorem glob_captures (cfg : Config V) (hord : cfg.orderingDisabled = false)
     obtain ⟨b, hb, hbr, hcaps⟩ := h
     have hy := mem_globKK (List.mem_of_find?_eq_some hk)
     have hmatch := List.find?_some hk
-    rw [hb] at hm; simp only [hbr, hy.1, hcaps hns, Option.some.injEq] at hm
+    rw [hb] at hm; simp only [hbr, hy.1, hcaps, Option.some.injEq] at hm
     refine ⟨y.1.2, y.1.1, rfl, hy.2.1, ?_, hm.symm⟩
     simp [ruleMatchesGlob, hy.2.2.1, hy.2.2.2, hmatch]
 
-/-- The captures themselves, on the FSM level: in ordered mode, if no name component is literally
-    `*`, the captures returned by `FSM.GetMapping` are `capturesOf pat name` for the winning rule. -/
+/-- The captures themselves, on the FSM level: in ordered mode, for every name, the captures returned
+    by `FSM.GetMapping` are `capturesOf pat name` for the winning rule. -/
 theorem globLookup_captures (cfg : Config V) (hord : cfg.orderingDisabled = false)
-    (name : Bytes) (ty : Nat) (hns : NoStarField (splitOn 46 name)) (f : Found)
+    (name : Bytes) (ty : Nat) (f : Found)
     (hf : globLookup (toGRules cfg) cfg.orderingDisabled (splitOn 46 name) ty = some f) :
     ∃ i r, firstGlob cfg name ty = some i ∧ cfg.rules[i]? = some r ∧
       (globRules cfg)[f.rule]? = some (i, r) ∧ f.caps = capturesOf r.pat (splitOn 46 name) := by
@@ -110,7 +118,7 @@ theorem globLookup_captures (cfg : Config V) (hord : cfg.orderingDisabled = fals
     obtain ⟨b, hb, hbr, hcaps⟩ := h
     have hy := mem_globKK (List.mem_of_find?_eq_some hk)
     rw [hb] at hf; cases hf
-    exact ⟨y.1.2, y.1.1, rfl, hy.2.1, by rw [hbr]; exact hy.1, hcaps hns⟩
+    exact ⟨y.1.2, y.1.1, rfl, hy.2.1, by rw [hbr]; exact hy.1, hcaps⟩
 
 /-- `lookupRegex` is "the first regex rule, in configuration order, that matches and passes the type filter". -/
 theorem regex_eq_firstRegex (cfg : Config V) (rx : Rx) (name : Bytes) (ty : Nat) :
@@ -273,10 +281,42 @@ example : (globLookup [⟨[a, b], none⟩, ⟨[starB, b], none⟩, ⟨[a, b], no
 example : globLookup [⟨[starB, b], none⟩, ⟨[a, starB], none⟩] false [a, b] 0 = some ⟨0, [a]⟩ := by decide
 -- the type filter: rule 0 is gauge-only, a counter lookup falls to rule 1
 example : (globLookup [⟨[a, b], some 1⟩, ⟨[a, starB], none⟩] false [a, b] 0).map (·.rule) = some 1 := by decide
--- why `NoStarField` is needed for the captures: a name component that is literally `*` reaches the `*`
--- child through the *literal* transition, so nothing is captured for it (the rule index is still right)
-example : globLookup [⟨[starB, b], none⟩] false [starB, b] 0 = some ⟨0, []⟩ ∧
-    capturesOf [starB, b] [starB, b] = [starB] := by decide
 end examples
+
+/-! ### The repaired `*`-component defect (finding `literal_star_component`, repair 0275669)
+
+Before the repair a name component that was literally `*` reached the `*` child through the *literal*
+transition, so nothing was captured for it and the later captures were shifted: rule `a.*.*`, name `a.*.y`
+gave the captures `(y, "")` where `(*, y)` was expected; rule `*.b`, name `*.b` gave no capture at all.
+The capture theorems above therefore carried the hypothesis "no name component is literally `*`". -/
+section repair
+private def y : Bytes := [121]
+
+/-- **The repair, on the former counterexample**: rules `[a.*.*]`, name `a.*.y` — the captures are
+    `[*, y]` = `capturesOf`, in ordered mode (and in unordered mode, with or without another rule that makes the
+    trie ambiguous). -/
+theorem star_component_captured :
+    globLookup [⟨[a, starB, starB], none⟩] false [a, starB, y] 0 = some ⟨0, [starB, y]⟩ ∧
+    globLookup [⟨[a, starB, starB], none⟩] true [a, starB, y] 0 = some ⟨0, [starB, y]⟩ ∧
+    globLookup [⟨[a, starB, starB], none⟩, ⟨[a, b, y], none⟩] true [a, starB, y] 0 = some ⟨0, [starB, y]⟩ ∧
+    capturesOf [a, starB, starB] [a, starB, y] = [starB, y] := by decide
+
+/-- the one-`*` instance that used to show that the hypothesis was needed: rule `*.b`, name `*.b` now captures `*` -/
+theorem star_component_captured₁ :
+    globLookup [⟨[starB, b], none⟩] false [starB, b] 0 = some ⟨0, [starB]⟩ ∧
+    capturesOf [starB, b] [starB, b] = [starB] := by decide
+
+/-- a `*` component of the name is matched by a `*` of the pattern only: the pattern's literal components are not `*`
+    (a pattern component equal to `*` *is* the wildcard), so the literal rule `a.b` does not match `a.*`,
+    and the literal transition is never taken for it — `a.*` falls to the wildcard rule although `a.b` comes first -/
+theorem star_component_no_literal :
+    globMatches [a, b] [a, starB] = false ∧
+    globLookup [⟨[a, b], none⟩, ⟨[a, starB], none⟩] false [a, starB] 0 = some ⟨1, [starB]⟩ := by decide
+
+/-- the general theorem instantiated on the search itself: every final state the backtracking search reports for
+    `a.*.y` carries `capturesOf` of its pattern (`trie_dfs_sound` without a hypothesis on the name) -/
+example : dfs (rulesFor [⟨[a, starB, starB], none⟩, ⟨[a, starB, y], none⟩, ⟨[starB, starB, y], none⟩] 0) true [] []
+      [a, starB, y] = [⟨1, [starB]⟩, ⟨0, [starB, y]⟩, ⟨2, [a, starB]⟩] := by decide
+end repair
 
 end SE.Props.C04
